@@ -21,6 +21,8 @@ CP = "hta.analyzers.critical_path_analysis"
 
 
 def run(db, chk) -> None:
+    from ..specs.discipline import check_facade_stateless
+    check_facade_stateless(db, chk, "C10.R-facade-stateless", ['critical_path_analysis'])
     from ..specs.discipline import check_stateless
     check_stateless(db, chk, "C10.R-stateless", ['hta.analyzers.critical_path_analysis'])      # the result is a function of the arguments: no state kept between calls, caller's Trace untouched
     chk.floor("C10.R-stateless", 4)
